@@ -152,7 +152,7 @@ class PreprocessorData:
         self.patch_last_wflip_address()
         self.insert_macro_start_labels_if_their_address_not_used()
         # (a program that doesn't fit in the memory is going to be rejected; its - maybe astronomic - sizes aren't shown)
-        if show_statistics and self.curr_address <= (1 << self.memory_width):
+        if show_statistics and 0 <= self.curr_address <= (1 << self.memory_width):
             show_macro_usage_pie_graph(dict(self.macro_code_size), self.curr_address)
 
     def prepare_macro_call(self, calling_op: Union[MacroCall, RepCall]) -> PreprocessorData._PrepareMacroCall:
